@@ -54,8 +54,8 @@ func popScenarios() []popScenario {
 				// "the enclosing block's own declaration" and is never offered
 				"use": {Body: &schema.BodySchema{Attributes: map[string]*schema.AttributeSchema{"attr": {Constraint: cons, IsOptional: true, CompletionHooks: hooks}}}},
 				"decl": {Labels: []*schema.LabelSchema{{Name: "n"}}, Body: &schema.BodySchema{},
-				Address: &schema.BlockAddrSchema{Steps: schema.Address{schema.StaticStep{Name: "decl"}, schema.LabelStep{Index: 0}}, AsReference: true, ScopeId: "sd",
-					AsTypeOf: &schema.BlockAsTypeOf{}}}},
+					Address: &schema.BlockAddrSchema{Steps: schema.Address{schema.StaticStep{Name: "decl"}, schema.LabelStep{Index: 0}}, AsReference: true, ScopeId: "sd",
+						AsTypeOf: &schema.BlockAsTypeOf{}}}},
 		}
 	}
 	decls := func(n int) string {
@@ -98,7 +98,9 @@ func popScenarios() []popScenario {
 			text: func(n int) string { return decls(n) + "use {\n  attr = decl.x\n}\n" }, cursor: endOf("attr = decl.x"), hooks: -1, total: func(n int) int { return n }},
 		{name: "functions", schema: func(n int) *schema.BodySchema { return declSchema(schema.AnyExpression{OfType: cty.String}, nil) },
 			text: func(n int) string { return "use {\n  attr = fn\n}\n" }, cursor: endOf("attr = fn"), funcs: nFuncs, hooks: -1, total: func(n int) int { return n }},
-		{name: "any-refs+functions", schema: func(n int) *schema.BodySchema { return declSchema(schema.AnyExpression{OfType: cty.DynamicPseudoType}, nil) },
+		{name: "any-refs+functions", schema: func(n int) *schema.BodySchema {
+			return declSchema(schema.AnyExpression{OfType: cty.DynamicPseudoType}, nil)
+		},
 			text: func(n int) string { return decls(n/2) + "use {\n  attr = \n}\n" }, cursor: endOf("attr = "), funcs: func(n int) map[string]schema.FunctionSignature { return nFuncs(n - n/2) }, hooks: -1,
 			total: func(n int) int { return n }},
 		{name: "oneof-refs+keyword", schema: func(n int) *schema.BodySchema {
